@@ -93,6 +93,9 @@ class Simulation(Structure):
 
     """
     def __new__(cls, *args, **kw):
+        # The filename (or Simulationarchive) can also be given as a keyword argument
+        if len(args)==0 and kw.get("filename") is not None:
+            args = (kw["filename"],)
         # Create a new simulation if no arguments given
         if len(args)==0:
             sim = super(Simulation,cls).__new__(cls)
@@ -142,7 +145,7 @@ class Simulation(Structure):
             # Recreate exisitng simulation 
             sim = super(Simulation,cls).__new__(cls)
             clibrebound.reb_simulation_init(byref(sim))
-            w = sa.warnings # warnings will be appended to previous warnings (as to not repeat them) 
+            w = getattr(sa, "warnings", c_int(0)) # warnings will be appended to previous warnings (as to not repeat them). An archive opened by the user has processed its warnings already.
             clibrebound.reb_simulation_create_from_simulationarchive_with_messages(byref(sim),byref(sa),c_int64(snapshot),byref(w))
             for majorerror, value, message in BINARY_WARNINGS:
                 if w.value & value:
@@ -164,7 +167,7 @@ class Simulation(Structure):
     
     @classmethod
     def from_simulationarchive(cls, simulationarchive, snapshot=-1):
-        return cls(filename=filename,snapshot=snapshot)
+        return cls(simulationarchive,snapshot=snapshot)
 
     @classmethod
     def from_file(cls, filename, snapshot=-1):
